@@ -112,3 +112,12 @@ VARIANTS += [
          old="                trial = models.TrialModel.find_or_raise_by_id(trial_id, session, for_update=True)\n                self.check_trial_is_updatable(trial_id, trial.state)\n\n                if state == TrialState.RUNNING and trial.state != TrialState.WAITING:",
          new="                trial = models.TrialModel.find_or_raise_by_id(trial_id, session, for_update=True)\n                self.check_trial_is_updatable(trial_id, trial.state)\n\n                if state == TrialState.RUNNING and models.TrialModel.find_or_raise_by_id(trial_id, session).state != TrialState.WAITING:"),
 ]
+
+VARIANTS += [
+    dict(id="c03-cached-create-study-outside-lock", prop="C03", file=CS, expect="R03.10",
+         old="        with self._lock:\n            # The cache entry of the new study is registered in the critical section of the\n",
+         new="        study_id = self._backend.create_new_study(directions=directions, study_name=study_name)\n        with self._lock:\n            study_id = study_id\n            # The cache entry of the new study is registered in the critical section of the\n"),
+    dict(id="c03-rdb-number-counted-before-insert", prop="C03", file=RDB, expect="R03.4",
+         old="        session.add(trial)\n\n        # Flush the session cache to reflect the above addition operation to\n",
+         new="        n_before = trial.count_past_trials(session)\n        session.add(trial)\n\n        # Flush the session cache to reflect the above addition operation to\n"),
+]
